@@ -1,16 +1,100 @@
+"""C14 — LimitPool bounds outstanding objects; SegmentKeysLock excludes per key."""
+import os
+import subprocess
+
+from checklib import core, steps
 from checklib.registry import generic, COMMON_NOTE
+
+# canonical text the known-findings signature matches on (see known_findings.json: C14-T)
+T_SIG = "C14-T: maxTokens >= 2^31 truncated to int32"
+T_MAX = 2 ** 31 + 1
+T_OPS = ["new limit %d" % T_MAX, "get 0"]
+T_THEOREM = "c14_limitPool_truncation_witness"
+
+# GOTRACEBACK=none: an unrecoverable Go fatal error (e.g. "Unlock of unlocked RWMutex") is reported by its
+# message instead of a goroutine dump
+ENV = {"GOTRACEBACK": "none"}
+
+
+def _theorem_ok(res, name):
+    return any(o["ok"] and o["name"].endswith("." + name) for o in res.obligations if o["name"].startswith("theorem "))
+
+
+def _run(work, name, ops, modes, timeout=120):
+    """ops on the real code, the Lean driver as oracle in each of `modes` -> (trace, {mode: verdict}) or None."""
+    binp, _ = work.build("syncx")
+    drv = steps.driver_path()
+    if binp is None or drv is None:
+        return None
+    d = os.path.join(work.dir, "known-" + name)
+    os.makedirs(d, exist_ok=True)
+    op, tr = os.path.join(d, "ops.txt"), os.path.join(d, "trace.txt")
+    with open(op, "w") as f:
+        f.write("\n".join(ops) + "\n")
+    try:
+        p = subprocess.run([binp, "-mode", "run", "-ops", op, "-out", tr], env=dict(core.GOENV, **ENV),
+                           stdout=subprocess.PIPE, stderr=subprocess.STDOUT, text=True, timeout=timeout)
+    except subprocess.TimeoutExpired:
+        return None
+    if p.returncode != 0:
+        return None
+    verdicts = {}
+    for mode in modes:
+        vd = os.path.join(d, "verdict." + mode)
+        with open(tr) as fin, open(vd, "w") as fout:
+            subprocess.run([drv, mode, "syncx"], stdin=fin, stdout=fout, stderr=subprocess.PIPE, text=True, timeout=timeout)
+        verdicts[mode] = [l.rstrip("\n") for l in open(vd)]
+    return [l.rstrip("\n") for l in open(tr)], verdicts
+
+
+def known_findings(work, res, tier, proofs_ok):
+    """C14-T: NewLimitPool converts maxTokens to int32; for 2^31 < maxTokens < 2^32 the counter starts negative and no
+    Get ever succeeds, although the property quantifies over all maxTokens >= 0.  Re-confirmed on every run: by the
+    negative-witness theorem (part of this run's Lean build) and on the real code (two calls).  The reproduction is
+    turned into a violation record whose `finding_signature` is set only after the record has been checked to be exactly
+    that case; the model-mode driver must accept the same trace (the model predicts the defect)."""
+    modes = ["spec"] if work.blackbox else ["spec", "model"]
+    got = _run(work, "truncation", T_OPS, modes)
+    thm = proofs_ok and _theorem_ok(res, T_THEOREM)
+    if not got:
+        if thm:
+            res.notes.append("C14-T could not be run on the real code in this run; listed by its negative-witness theorem")
+            res.violation("known corner of the stated quantifier, confirmed by its negative-witness theorem (part of this run's Lean build)",
+                          {"harness": "syncx", "area": "syncx", "mode": "negative-witness", "finding": "C14-T",
+                           "theorem": T_THEOREM, "history": "NewLimitPool(2^31+1); Get -> false with nothing outstanding",
+                           "finding_signature": T_SIG + " [negative-witness theorem %s]" % T_THEOREM}, concrete=True)
+        return
+    trace, verdicts = got
+    spec = verdicts["spec"]
+    bad = [i for i, v in enumerate(spec) if not v.startswith("ok")]
+    if bad:
+        i = bad[0]
+        rec = {"harness": "syncx", "area": "syncx", "mode": "spec", "ops": T_OPS, "trace": trace, "verdict": spec,
+               "first_message": spec[i], "seed": res.seed}
+        # exactly the known case: the constructor line was accepted, the single Get on the fresh pool returned false,
+        # and maxTokens really is in the truncated range
+        if (i == 1 and len(trace) == 2 and trace[0].startswith("new limit %d => ok" % T_MAX)
+                and trace[1].startswith("get 0 => false") and 2 ** 31 < T_MAX < 2 ** 32):
+            rec["finding_signature"] = "%s (maxTokens=%d: the first Get fails with nothing outstanding)" % (T_SIG, T_MAX)
+        res.violation("a Get failed although nothing was outstanding and maxTokens > 0: " + spec[i], rec)
+        model = verdicts.get("model")
+        if model is not None and any(not v.startswith("ok") for v in model) and proofs_ok:
+            res.violation("the model does not predict the observed behaviour of NewLimitPool(maxTokens >= 2^31): "
+                          + next(v for v in model if not v.startswith("ok")),
+                          {"broken": "C14-T model agreement", "ops": T_OPS, "trace": trace, "verdict": model}, concrete=False)
+    elif thm:
+        res.violation("known finding C14-T no longer reproduces on the real code although its negative-witness theorem "
+                      "still holds: the model no longer describes NewLimitPool's conversion of maxTokens",
+                      {"broken": "C14-T reproduction", "ops": T_OPS, "trace": trace, "verdict": spec}, concrete=False)
 
 
 def CHECK(work, res, tier):
-    # GOTRACEBACK=none: an unrecoverable Go fatal error (e.g. "Unlock of unlocked RWMutex") is reported by its
-    # message instead of a goroutine dump
-    env = {"GOTRACEBACK": "none"}
-    corrs = [dict(harness="syncx", area="syncx", env=env)]
+    corrs = [dict(harness="syncx", area="syncx", env=ENV)]
     if tier == "thorough":
         # the same scripted cases and stress scenarios with the race detector on: the owner-variable
         # probe inside the critical sections is a plain variable, so broken exclusion is also a race report
-        corrs.append(dict(harness="syncx", area="syncx", name="syncx-race", race=True, env=env))
-    return generic("C14", corrs)(work, res, tier)
+        corrs.append(dict(harness="syncx", area="syncx", name="syncx-race", race=True, env=ENV))
+    return generic("C14", corrs, extra=known_findings)(work, res, tier)
 
 
 MANIFEST = dict(
@@ -20,13 +104,14 @@ MANIFEST = dict(
           "outstanding, and at quiescence with nothing borrowed has tokens = max so that exactly maxTokens further Gets succeed; "
           "SegmentKeysLock: index = FNV-1a(key bytes) mod size is a function of the contents and < size for size >= 1, and over the "
           "assumed RWMutex semantics a write hold excludes every other hold on an equal key, TryLock/TryRLock fail while it is held, "
-          "read locks are shared, TryLock succeeds whenever nothing is held. The models are acceptors for traces of the real code "
-          "(token counter, factory calls and segment index observed through hooks) and for concurrent stress summaries "
-          "(outstanding high-water mark, quiescent conservation, owner-variable probe) on every run."),
-    note=COMMON_NOTE + " Stated for 0 <= maxTokens < 2^31 (the constructor truncates int to int32) and at most 2^31 goroutines "
-         "(int32 wrap); spurious Get failures under contention are allowed by the property and exhibited as a reachable schedule; "
-         "sync.RWMutex / sync.Pool / atomic.Int32 semantics are assumed primitives; size = 0 panics at first use and is outside the "
-         "property's quantifier.",
+          "read locks are shared, TryLock succeeds whenever nothing is held. A negative witness is proved for the known corner "
+          "C14-T (maxTokens = 2^31+1 is truncated to int32 and no Get ever succeeds). The models are acceptors for traces of the real "
+          "code (token counter, factory calls and segment index observed through hooks, with a black-box stub fallback) and for "
+          "concurrent stress summaries (outstanding high-water mark, quiescent conservation, owner-variable probe) on every run."),
+    note=COMMON_NOTE + " Partial: the LimitPool theorems assume 0 <= maxTokens < 2^31 (known finding C14-T: the constructor truncates "
+         "int to int32; reproduced on the real code on every run) and at most 2^31 goroutines (int32 wrap); spurious Get failures "
+         "under contention are allowed by the property and exhibited as a reachable schedule; sync.RWMutex / sync.Pool / "
+         "atomic.Int32 semantics are assumed primitives; size = 0 panics at first use and is outside the property's quantifier.",
     technique="Lean 4 invariant proofs over executable transition systems (unbounded threads) + trace-acceptance and stress "
               "correspondence against the real syncx code",
 )
